@@ -130,7 +130,7 @@ def fopt(v):
 def run(ctx):
     thorough = ctx.tier == "thorough"
     rng = ctx.rng
-    ctx.proofs(["C01/Props.v", "C01/PropsConsts.v", "C01/PropsLP.v", "C09/PropsTie.v"])
+    ctx.proofs(["C01/Props.v", "C01/PropsConsts.v", "C01/PropsLP.v", "C09/PropsTie.v", "C04/PropsTie.v"])
     warnings.filterwarnings("ignore")
     from quantecon.markov import DiscreteDP
 
